@@ -15,7 +15,8 @@ DOM = dict(
     phi=[0.0, 0.7, 1.5707963267948966, 3.141592653589793, -2.0], q=[-1.0, 0.0, 0.01, 0.5, 2.0, 20.0, 1e9],
     pz=[-1.0, 0.0, 0.5, 2.0, 50.0, 1e4], density=[-1.0, 0.0, 1.0, 2.7],
     compound=['H2O', 'Ca5(PO4)3F', 'SiO2', 'Pb0.5Sn1.5', 'Water, Liquid', 'Air, Dry (near sea level)', 'Bone, Compact (ICRU)',
-              'Xx', 'H2(', '', None, 'Rf', 'C6H12O6', 'Gadolinium Oxysulfide', '(Fe2O3)0.3(SiO2)0.7', 'U', 'Caf\u00e9', 'H2O\u00b2', '\u00c5ngstr\u00f6m'])
+              'Xx', 'H2(', '', None, 'Rf', 'C6H12O6', 'Gadolinium Oxysulfide', '(Fe2O3)0.3(SiO2)0.7', 'U', 'Caf\u00e9', 'H2O\u00b2', '\u00c5ngstr\u00f6m',
+              'Fe0.69999999999999996Ni0.30000000000000004', 'water', '2H2O', 'Ca(2OH)', 'Cu(so4)', '(OH)a2', 'Ca(OH)2.5'])
 PDOM = [0.0, 1.5, 1234.5]
 CRYSTALS = ['Si', 'Ge', 'Diamond', 'GaAs', 'InSb', 'LiF', 'Beryl', 'Muscovite', 'AlphaQuartz', 'Graphite', 'nope', None]
 
